@@ -63,6 +63,15 @@ class Names:
         if b'.' in b:
             out.append(b.replace(b'.', b'X') + b'.2024-01-01.1' + s)       # an unescaped '.' would match this
             out.append(b.replace(b'.', b'-') + b'.2023-01-01.7' + s + b'.gz')
+        if b'.' in b.strip(b'.'):
+            first = b[:b.index(b'.', 1)]                                    # the rotated files of the sibling sink <first component>.<suffix>
+            out += [first + b'.2020-01-01.1' + s, first + b'.2020-01-01.2' + s + b'.gz']
+        for v in (b.upper(), b.capitalize(), b.swapcase()):                 # same name in another letter case (case-sensitive file system)
+            if v != b:
+                out.append(v + b'.2020-01-01.1' + s)
+        if self.suffix and self.suffix.upper() != self.suffix:
+            out.append(b + b'.2020-01-01.3.' + self.suffix.upper())
+            out.append(b + b'.2020-01-01.4' + s + b'.GZ')
         if self.suffix:
             out.append(b + b'.2024-01-01.1')                                # the scheme of a suffix-less sink
             out.append(b + b'.2024-01-01.1X' + self.suffix)
@@ -125,10 +134,17 @@ def gen_case(rng, thorough=False):
         # an earlier life of the sink produced them in rotation order = (date, index, name) order
         for nm_ in sorted((names.rotated(*s) for s in uniq), key=lambda n: (names.parse(n)['date'], names.parse(n)['idx'], n)):
             ops.append(('seed', nm_))
+    # a non-UTF-8 8-bit codec for the process (QTextCodec::setCodecForLocale): what is written is the local 8-bit form
+    codec = rng.choice([None] * 11 + ['ISO-8859-1', 'windows-1251'])
+    # 'quiet' = nobody looks at the directory (and nothing flushes the sink) until the very end
+    quiet = codec is None and rng.random() < 0.08
+    if quiet:
+        L, N, opts = 0, rng.choice([-1, 0]), rng.choice([2, 3, 6, 7])
+        ops = []
     nops = rng.randint(4, 40 if not thorough else 60)
     if L >= 1000:
         nops = min(nops, 14)          # 4 KiB records: keep the byte-wise oracle cheap
-    style = rng.choice(['mixed', 'mixed', 'burst', 'days'])
+    style = rng.choice(['mixed', 'mixed', 'burst', 'days']) if not quiet else 'days'
     la = names.lookalikes()
     for _ in range(nops):
         x = rng.random()
@@ -147,7 +163,17 @@ def gen_case(rng, thorough=False):
             if n > 6000:
                 n = 6000
             kind = rng.random()
-            if kind < 0.1 and n >= 4:
+            if codec:
+                kind = 1.0
+            if codec and rng.random() < 0.7 and n >= 2:
+                # characters whose UTF-8 and local 8-bit lengths differ (1 unit each in UTF-16; '?' when not representable)
+                txt = ''.join(rng.choice('éüж€y') for _ in range(n))
+                while len(txt.encode()) > n:
+                    txt = txt[:-1]
+                p = txt.encode() + b'y' * (n - len(txt.encode()))
+            elif (opts & 4) and kind < 0.25 and n >= 3:
+                p = (b'a\rb\r\nc' + b'\r' * n)[:n - 1] + b'z'               # lone CR and CRLF inside a record (compression re-reads the file)
+            elif kind < 0.1 and n >= 4:
                 unit = 'é€😀'.encode()                                   # multi-byte UTF-8
                 p = (unit * (n // len(unit) + 1))
                 p = p[:n]
@@ -176,10 +202,13 @@ def gen_case(rng, thorough=False):
                 dt = rng.choice([1, DAY, 2 * DAY, DAY - t % DAY, DAY - (t + off) % DAY])
                 t += dt
                 ops.append(('adv', dt))
-            ops.append(('restart',))
-        else:
+            if not quiet:
+                ops.append(('restart',))
+        elif not quiet:
             ops.append(('put', rng.choice(la), rng.choice([b'', b'foreign\n', b'\x00\xff'])))
-    return {'L': L, 'N': N, 'opts': opts, 'gran': gran, 'base': base, 'suffix': suffix, 't0': t0, 'tz': tz, 'locale': locale, 'ops': ops}
+    if quiet:
+        ops.append(('end',))
+    return {'L': L, 'N': N, 'opts': opts, 'gran': gran, 'base': base, 'suffix': suffix, 't0': t0, 'tz': tz, 'locale': locale, 'codec': codec, 'quiet': quiet, 'ops': ops}
 
 
 # ------------------------------------------------------------------------------------ protocol
@@ -188,12 +217,17 @@ def seed_content(case, k, name):
 
 
 def lines_of(case, for_impl):
-    ls = ['case %d %d %d %d %s %s %d %d' % (case['L'], case['N'], case['opts'], case['gran'], hx(case['base']),
-                                            hx(case['suffix']), case['t0'], case.get('tz', 0))]
+    ls = ['case %d %d %d %d %s %s %d %d %s %d' % (case['L'], case['N'], case['opts'], case['gran'], hx(case['base']),
+                                                  hx(case['suffix']), case['t0'], case.get('tz', 0), case.get('codec') or '-',
+                                                  1 if case.get('quiet') else 0)]
     k = 0
     for o in case['ops']:
-        if o[0] == 'w':
-            ls.append('w ' + hx(o[1]))
+        if o[0] in ('w', 'w2'):
+            ls.append(o[0] + ' ' + hx(o[1]))
+        elif o[0] == 'sparse':
+            ls.append('sparse %d' % o[1])
+        elif o[0] == 'end':
+            ls.append('end')
         elif o[0] == 'adv':
             ls.append('adv %d' % o[1])
         elif o[0] == 'restart':
@@ -208,13 +242,24 @@ def lines_of(case, for_impl):
     return ls
 
 
+def written_bytes(case, payload):
+    """the bytes IODeviceSink::send writes for a message: toLocal8Bit() + newline"""
+    if case.get('codec'):
+        enc = {'ISO-8859-1': 'latin-1', 'windows-1251': 'cp1251'}[case['codec']]
+        return payload.decode('utf-8').encode(enc, errors='replace') + b'\n'
+    return payload + b'\n'
+
+
 def parse_listing(line, names, decode):
+    if line.strip() == '-':
+        return None                               # a quiet case: nobody looked
     out = []
     for it in line.split(';'):
         if not it:
             continue
         n, mt, c = it.split(':')
-        n, c = unhx(n), unhx(c)
+        n = unhx(n)
+        c = (b'@' + c[1:].encode()) if c.startswith('@') else unhx(c)      # @<size>: a huge file, content not read
         if decode and (names.parse(n) or {}).get('gz'):        # a compressed file of the scheme (a suffix may itself be "gz")
             try:
                 c = gzip.decompress(c)            # independent decoder, never Qt
@@ -318,8 +363,8 @@ class Ghost:
         """account for what the operation is known to do to the history (before looking at the listing)"""
         if o[0] == 'adv':
             self.t += max(0, o[1])
-        elif o[0] == 'w':
-            self._add(o[1] + b'\n')
+        elif o[0] in ('w', 'w2'):
+            self._add(written_bytes(self.case, o[1]))
         elif o[0] == 'seed':
             self.seeded.add(o[1])
             self.seed_pending = True
@@ -415,6 +460,9 @@ def oracle_lines(case, listings):
     for o, lst in zip(seq, listings):
         if o is not None:
             g.note_op(o)
+        if lst is None:
+            infos.append({'rot': 0, 'gone': 0, 'aligned': True, 'new_rot': []})
+            continue
         ls, info = g.snapshot(lst)
         lines += ls
         infos.append(info)
@@ -441,6 +489,19 @@ def first_bad(bits, bit):
     return None
 
 
+def looked(ls):
+    """indices of the listings that exist (a quiet case is looked at only once, at the end)"""
+    return [i for i, l in enumerate(ls) if l is not None]
+
+
+def same_dirs(case, a, b):
+    """implementation listing a vs model listing b; a quiet case compares names and contents only: the kernel stamps a
+    file when buffered data reaches it, which nobody observed"""
+    if case.get('quiet'):
+        return a is None or [(n, c) for (n, _, c) in a] == [(n, c) for (n, _, c) in (b or [])]
+    return a == b
+
+
 def show_op(o):
     if o is None:
         return 'construct'
@@ -454,6 +515,8 @@ def show_op(o):
 
 
 def show_listing(lst):
+    if lst is None:
+        return 'not looked at (quiet case)'
     return [[n.decode('utf-8', 'replace'), mt, (c[:60].decode('utf-8', 'replace') + ('...(%d bytes)' % len(c) if len(c) > 60 else ''))]
             for (n, mt, c) in lst]
 
@@ -515,6 +578,59 @@ def probe_newline_lookalike(chk, impl, model):
     return found
 
 
+def probe_two_sink_objects(chk, impl, model):
+    """C06 (oracle only, outside the model): TWO live RotatingFileSink objects on the same path, written alternately with
+    records of exactly L bytes, so that every write rotates (a record never lands in a file the other object renamed).
+    Each object must see the files the other one created: the count bound and the conservation equation are evaluated on
+    the real directory after every write."""
+    found = 0
+    for (N, opts, gran) in ((3, 0, 1000), (2, 4, 1), (3, 1, 1000)):
+        case = {'L': 8, 'N': N, 'opts': opts, 'gran': gran, 'base': b'my.app', 'suffix': b'log', 't0': 19700 * DAY + 5000, 'tz': 0,
+                'ops': [('w' if k % 2 == 0 else 'w2', b'r%d.yyyyyyy' % k)[:2] for k in range(12)]}
+        case['ops'] = [(o, p[:7]) for (o, p) in case['ops']]
+        ls, _ = run_impl_one(impl, case)
+        if len(ls) != len(case['ops']) + 1:
+            chk.broke('two-sink probe: harness produced no listing', {'kind': 'harness', 'case': case_json(case)}); continue
+        bits, _, _, _ = verdicts(case, model, ls, 'C06')
+        fb = first_bad(bits, BIT['C06'])
+        if fb is not None:
+            found += 1
+            chk.fail('C06 falsified on the real RotatingFileSink: two live sink objects write the same path alternately (L=8 N=%d options=%d, '
+                     'every write rotates); after write %d the directory violates the count bound / conservation - an object does not '
+                     'see the rotated files the other one created' % (N, opts, fb),
+                     {'kind': 'two-sink-objects', 'case': case_json(case), 'L': 8, 'N': N, 'options': opts, 'first_bad_step': fb,
+                      'oracle_bits_per_step(c05,c06,c07,c09)': bits, 'ops_readable': [show_op(o) for o in case['ops']],
+                      'implementation_listing_at_failure': show_listing(ls[fb]),
+                      'note': 'w2 = write through the second object'}, kind='two-sink-objects')
+    return found
+
+
+def probe_huge_sparse_file(chk, impl):
+    """C07 near INT_MAX (outside the model: the active file is a pre-existing SPARSE file of L-10 bytes whose content is never
+    read): one 21-byte record must rotate - exactly two files, the big one under a rotated name, the record alone in the
+    active file."""
+    found = 0
+    for L in (2147483647, 2147483644):
+        nm = Names(b'big', b'log')
+        case = {'L': L, 'N': 3, 'opts': 0, 'gran': 1, 'base': b'big', 'suffix': b'log', 't0': 19700 * DAY + 5000, 'tz': 0,
+                'ops': [('sparse', L - 10), ('w', b'r0.yyyyyyyyyyyyyyyyy')]}
+        ls, _ = run_impl_one(impl, case)
+        if len(ls) != 3:
+            chk.broke('sparse-file probe: harness produced no listing', {'kind': 'harness', 'case': case_json(case)}); continue
+        final = ls[-1]
+        sizes = sorted((n, len(c) if not c.startswith(b'@') else int(c[1:])) for (n, _, c) in final)
+        rot = [(n, sz) for (n, sz) in sizes if nm.parse(n)]
+        act = [sz for (n, sz) in sizes if n == nm.active]
+        ok = len(sizes) == 2 and len(rot) == 1 and rot[0][1] == L - 10 and act == [21]
+        if not ok:
+            found += 1
+            chk.fail('C07 falsified on the real RotatingFileSink: L=%d, active file of %d bytes, one record of 21 bytes: expected the big '
+                     'file rotated and the record alone in a new active file, found %s' % (L, L - 10, [(n.decode(), sz) for n, sz in sizes]),
+                     {'kind': 'size-near-int-max', 'case': case_json(case), 'L': L, 'N': 3, 'options': 0,
+                      'files_and_sizes': [(n.decode(), sz) for n, sz in sizes]}, kind='size-near-int-max')
+    return found
+
+
 def run_check(pid):
     chk = vlib.Check(pid)
     bit = BIT[pid]
@@ -566,39 +682,42 @@ def run_check(pid):
             chk.broke('harness produced %d listings for %d operations' % (len(ls), len(c['ops']) + 1), {'kind': 'harness', 'case': case_json(c)})
             continue
         ml = [parse_listing(l, nm, False) for l in (mo or [])]
-        for i, (a, b) in enumerate(zip(ls, ml)):
-            if a != b:
-                disagreements.append((ci, i)); break
-        else:
-            if len(ml) != len(ls):
-                disagreements.append((ci, len(ml)))
+        if not c.get('codec'):           # (a non-UTF-8 codec is an oracle-only dimension: the model writes what it measures)
+            for i, (a, b) in enumerate(zip(ls, ml)):
+                if not same_dirs(c, a, b):
+                    disagreements.append((ci, i)); break
+            else:
+                if len(ml) != len(ls):
+                    disagreements.append((ci, len(ml)))
         bits = [o for o, l in zip(orr or [], ol) if l.startswith('s ')]
         stats['ops'] += len(c['ops']); stats['oracle_evaluations'] += len(bits)
         stats['rotations'] += sum(len(x['new_rot']) for x in infos)
         stats['removals'] += infos[-1]['gone'] if infos else 0
-        fb = first_bad(bits, bit) if len(bits) == len(ls) else 0
+        fb = first_bad(bits, bit) if len(bits) == len(looked(ls)) else 0
         if fb is not None:
-            falsified.append((ci, fb))
+            falsified.append((ci, looked(ls)[fb] if fb < len(looked(ls)) else 0))
 
     def still_fails(case):
         ls, _ = run_impl_one(impl, case)
         if len(ls) != len(case['ops']) + 1:
             return False
         bits, _, _, _ = verdicts(case, model, ls, pid)
-        return len(bits) != len(ls) or first_bad(bits, bit) is not None
+        return len(bits) != len(looked(ls)) or first_bad(bits, bit) is not None
 
     reported = set()
     for ci, fb in sorted(falsified, key=lambda x: len(cases[x[0]]['ops']))[:3]:
         c = cases[ci]
-        cut = dict(c); cut['ops'] = c['ops'][:fb]          # listing index fb = after op number fb
+        tail = [('end',)] if c.get('quiet') else []
+        cut = dict(c); cut['ops'] = [o for o in c['ops'][:fb] if o[0] != 'end'] + tail     # listing index fb = after op number fb
         if not still_fails(cut):
             cut = c
-        ops = vlib.shrink_list(cut['ops'], lambda o: still_fails(dict(cut, ops=o)), max_steps=120)
+        ops = vlib.shrink_list([o for o in cut['ops'] if o[0] != 'end'], lambda o: still_fails(dict(cut, ops=list(o) + tail)), max_steps=120) + tail
         small = dict(cut, ops=ops)
         ls, _ = run_impl_one(impl, small)
         bits, infos, _, _ = verdicts(small, model, ls)
         fbs = first_bad(bits, bit)
-        fbs = fbs if fbs is not None else len(ls) - 1
+        fbs = looked(ls)[fbs] if fbs is not None and fbs < len(looked(ls)) else len(ls) - 1
+        bits = [bits[looked(ls).index(i)] if i in looked(ls) and looked(ls).index(i) < len(bits) else '----' for i in range(len(ls))]
         _, mo = None, run_exec(model, [lines_of(small, False)], (), chunks=1)[0][0]
         nm = Names(small['base'], small['suffix'])
         sig = (small['L'] > 0, small['N'], small['opts'], len(ops))
@@ -614,6 +733,7 @@ def run_check(pid):
                         'oracle_bits_per_step(c05,c06,c07,c09)': bits,
                         'implementation_listing_at_failure': show_listing(ls[fbs]),
                         'implementation_listing_before': show_listing(ls[fbs - 1]) if fbs > 0 else None,
+                        'codec': small.get('codec'), 'quiet_until_the_end': bool(small.get('quiet')),
                         'model_listing_at_failure': show_listing(parse_listing(mo[fbs], nm, False)) if mo and fbs < len(mo) else None,
                         'falsified_cases': len(falsified), 'source_shape_is_proven_shape': shape_std}, kind=KIND[pid])
     if disagreements:
@@ -628,6 +748,9 @@ def run_check(pid):
              'model': show_listing(ml[i]) if i < len(ml) else None})
     if pid == 'C06':
         chk.cov['newline_lookalike_probe_failures'] = probe_newline_lookalike(chk, impl, model)
+        chk.cov['two_sink_objects_probe_failures'] = probe_two_sink_objects(chk, impl, model)
+    if pid == 'C07':
+        chk.cov['huge_sparse_file_probe_failures'] = probe_huge_sparse_file(chk, impl)
     if not shape_std and not falsified and not disagreements:
         chk.broke('the decision shapes translated from the source differ from the proven ones but no difference was observed', {'kind': 'shape'})
 
@@ -677,7 +800,8 @@ def run_check(pid):
         'oracle_evaluated_on_impl_listings': stats['oracle_evaluations'], 'oracle_falsified_cases': len(falsified),
         'disagreements_model_vs_impl': len(disagreements), 'source_shape_is_proven_shape': shape_std,
         'L_histogram': hist(lambda c: c['L']), 'N_histogram': hist(lambda c: c['N']), 'options_histogram': hist(lambda c: c['opts']),
-        'granularity_histogram': hist(lambda c: c['gran']), 'time_zone_minutes_histogram': hist(lambda c: c.get('tz', 0)), 'locale_histogram': hist(lambda c: c.get('locale') or 'C.UTF-8'),
+        'granularity_histogram': hist(lambda c: c['gran']), 'time_zone_minutes_histogram': hist(lambda c: c.get('tz', 0)), 'locale_histogram': hist(lambda c: c.get('locale') or 'C.UTF-8'), 'codec_histogram': hist(lambda c: c.get('codec') or 'locale (UTF-8)'),
+        'quiet_cases_looked_at_only_at_the_end': sum(1 for c in cases if c.get('quiet')),
         'writes_while_local_date_differs_from_utc_date': tzdiff, 'file_name_histogram': hist(lambda c: Names(c['base'], c['suffix']).active.decode()),
         'seeded_cases': sum(1 for c in cases if any(o[0] == 'seed' for o in c['ops'])),
         'op_kind_histogram': kinds, 'record_length_minus_L_hits': bnd, 'index_crossings': cross,
@@ -707,5 +831,5 @@ def replay_check(pid, path):
         print('--- after operation %d: %s' % (i, show_op(o)))
         print('  implementation', show_listing(ls[i]) if i < len(ls) else None)
         print('  model         ', show_listing(parse_listing(mo[i], nm, False)) if i < len(mo) else None)
-        print('  oracles c05,c06,c07,c09 on the implementation:', bits[i] if i < len(bits) else None)
+        print('  oracles c05,c06,c07,c09 on the implementation:', dict(zip(looked(ls), bits)).get(i))
     return 0
